@@ -2,13 +2,15 @@
    Property statements only.  Models: Model/{Mem,Sqlite,Peewee}Store.v, reference model
    Model/StoreSpec.v (spec_step: fresh id = any id not live in the bucket, newest = any event of
    maximal timestamp, pre = the quantifier's side condition).  Proofs: Proofs/Store*.v.
-   Proved here: memory and sqlite refine the reference model step by step and over all
-   histories; the corollaries named in the property text.  The peewee refinement and the
-   id-renaming form of interchangeability are stated in notes/agents/C02.md (not proved). *)
+   Proved here: memory, sqlite and peewee refine the reference model step by step and over
+   all histories; the corollaries named in the property text on all three; and the
+   interchangeability of the back ends up to an id renaming, for corresponding histories in
+   which every replace_last is unambiguous (without that proviso it is false, see the notes). *)
 From AwVerif Require Import Base.Prelude Model.StoreBase Model.MemStore Model.SqliteStore
   Model.PeeweeStore Model.StoreSpec Proofs.StoreMemProofs Proofs.StoreMemRefine
   Proofs.StoreSpecFacts Proofs.StoreSqliteProofs Proofs.StoreSqliteRefine
-  Proofs.StorePeeweeProofs Proofs.StoreC02.
+  Proofs.StorePeeweeProofs Proofs.StorePeeweeRefine Proofs.StoreC02 Proofs.StoreSpecSim
+  Proofs.StoreC02More.
 
 (* --- refinement, one step: the step returns (does not raise) and is a step of the
        reference model between the abstractions (memory: the state itself) --- *)
@@ -22,6 +24,16 @@ Theorem C02_sqlite_refines : forall c op, sq_Inv c -> sq_Dom c -> pre (sq_abs c)
               spec_step (sq_abs c) op (sq_abs (fst (sq_step c op))) out.
 Proof. exact sq_refines. Qed.
 Print Assumptions C02_sqlite_refines.
+
+Theorem C02_peewee_refines : forall c op, pw_Inv c -> pre (pw_abs c) op ->
+  exists out, snd (pw_step c op) = Ok out /\
+              spec_step (pw_abs c) op (pw_abs (fst (pw_step c op))) out.
+Proof. exact pw_refines. Qed.
+Print Assumptions C02_peewee_refines.
+
+Theorem C02_peewee_abs_is_view : forall c b, aget b (pw_abs c) = pw_view c b.
+Proof. exact aget_pw_abs. Qed.
+Print Assumptions C02_peewee_abs_is_view.
 
 (* the abstraction is the read-back: looking a bucket up in sq_abs is sq_view *)
 Theorem C02_sqlite_abs_is_view : forall c b, aget b (sq_abs c) = sq_view c b.
@@ -45,6 +57,11 @@ Theorem C02_sqlite_refines_histories : forall h c, sq_Inv c -> sq_Dom c -> sq_hi
 Proof. exact sq_refines_run. Qed.
 Print Assumptions C02_sqlite_refines_histories.
 
+Theorem C02_peewee_refines_histories : forall h c, pw_Inv c -> pw_hist_ok c h ->
+  spec_run (pw_abs c) h (pw_abs (pw_run c h)) /\ pw_Inv (pw_run c h).
+Proof. exact pw_refines_run. Qed.
+Print Assumptions C02_peewee_refines_histories.
+
 (* --- replace_last rewrites exactly the event the limit-1 read returned immediately
        before it: same id, the rest of the bucket as it was (other buckets: C04) --- *)
 Theorem C02_replace_last_hits_limit1_mem : forall c b e x m es,
@@ -63,6 +80,14 @@ Theorem C02_replace_last_hits_limit1_sqlite : forall c b e x m es,
 Proof. exact sq_replace_last_hits_limit1. Qed.
 Print Assumptions C02_replace_last_hits_limit1_sqlite.
 
+Theorem C02_replace_last_hits_limit1_peewee : forall c b e x m es,
+  pw_Inv c -> pw_view c b = Some (m, es) ->
+  snd (pw_step c (GetEvents b 1 None None)) = Ok (OEvents [x]) ->
+  exists i, eid x = Some i /\ In x es /\
+            pw_view (fst (pw_step c (ReplaceLast b e))) b = Some (m, spec_replace i e es).
+Proof. exact pw_replace_last_hits_limit1. Qed.
+Print Assumptions C02_replace_last_hits_limit1_peewee.
+
 (* --- delete removes exactly the addressed event and says whether it existed: ANY id --- *)
 Theorem C02_delete_exact_mem : forall c b i m es,
   mem_Inv c -> mem_view c b = Some (m, es) ->
@@ -77,6 +102,13 @@ Theorem C02_delete_exact_sqlite : forall c b i m es,
   snd (sq_step c (Delete b i)) = Ok (OBool (if in_dec Z.eq_dec i (live_ids es) then true else false)).
 Proof. exact sq_delete_exact. Qed.
 Print Assumptions C02_delete_exact_sqlite.
+
+Theorem C02_delete_exact_peewee : forall c b i m es,
+  pw_Inv c -> pw_view c b = Some (m, es) ->
+  pw_view (fst (pw_step c (Delete b i))) b = Some (m, spec_delete i es) /\
+  snd (pw_step c (Delete b i)) = Ok (OBool (if in_dec Z.eq_dec i (live_ids es) then true else false)).
+Proof. exact pw_delete_exact. Qed.
+Print Assumptions C02_delete_exact_peewee.
 
 (* --- at every moment an id names at most one live event of its bucket (after ANY history,
        no side condition), and replace / replace_last never change an id --- *)
@@ -107,14 +139,65 @@ Theorem C02_bulk_reorder : forall es cur R,
 Proof. exact spec_many_reorder. Qed.
 Print Assumptions C02_bulk_reorder.
 
-(* --- interchangeability, the part that is proved: memory and sqlite, fed a history that
-       meets the side condition on each, both end in states the ONE reference model reaches
-       from the empty store by that history (the id-renaming form is in the notes) --- *)
-Theorem C02_backends_interchangeable_partial : forall h,
-  mem_hist_ok mem_init h -> sq_hist_ok sq_init h ->
-  spec_run spec_init h (mem_run mem_init h) /\ spec_run spec_init h (sq_abs (sq_run sq_init h)).
-Proof. exact mem_sqlite_same_spec. Qed.
-Print Assumptions C02_backends_interchangeable_partial.
+(* --- interchangeability.
+   `sim s1 s2`: same buckets in the same order, metadata equal (name aside: memory defaults it
+   to the bucket id), and per bucket es2 = map (rename f) es1 for an f injective on the live
+   ids of es1 -- the same contents up to an id renaming (C02_sim_is_renaming).
+   `ms_ok / mp_ok / sp_ok cA cB hA hB` (StoreSpecSim.pair_ok): the two histories have the same
+   length and correspond op by op (`op_sim`: same operation, bucket and event contents; ids
+   passed to replace / delete / upsert name the event at the same POSITION of the bucket's list
+   on both sides, or are live on neither), each step meets its back end's side condition, and
+   every replace_last is issued when all newest events of the bucket carry one id (`unamb`).
+   Without `unamb` the statement is false: A@t, B@t, replace_last X leaves [A, X] on memory
+   and sqlite and [X, B] on peewee. --- *)
+Theorem C02_spec_deterministic_up_to_ids : forall s1 s2 o1 o2 s1' s2' out1 out2,
+  sim s1 s2 -> op_sim s1 s2 o1 o2 -> unamb s1 o1 -> pre s1 o1 ->
+  spec_step s1 o1 s1' out1 -> spec_step s2 o2 s2' out2 -> sim s1' s2'.
+Proof. exact spec_step_sim. Qed.
+Print Assumptions C02_spec_deterministic_up_to_ids.
+
+Theorem C02_sim_is_renaming : forall s1 s2 b, sim s1 s2 ->
+  match aget b s1, aget b s2 with
+  | Some (m1, es1), Some (m2, es2) =>
+      meta_sim m1 m2 /\ exists f, inj_on f (live_ids es1) /\ es2 = map (rename f) es1
+  | None, None => True
+  | _, _ => False
+  end.
+Proof. exact sim_views. Qed.
+Print Assumptions C02_sim_is_renaming.
+
+Theorem C02_backends_interchangeable_mem_sqlite : forall hM hS,
+  ms_ok mem_init sq_init hM hS -> sim (mem_run mem_init hM) (sq_abs (sq_run sq_init hS)).
+Proof. exact interchangeable_mem_sqlite. Qed.
+Print Assumptions C02_backends_interchangeable_mem_sqlite.
+
+Theorem C02_backends_interchangeable_mem_peewee : forall hM hP,
+  mp_ok mem_init pw_init hM hP -> sim (mem_run mem_init hM) (pw_abs (pw_run pw_init hP)).
+Proof. exact interchangeable_mem_peewee. Qed.
+Print Assumptions C02_backends_interchangeable_mem_peewee.
+
+Theorem C02_backends_interchangeable_sqlite_peewee : forall hS hP,
+  sp_ok sq_init pw_init hS hP -> sim (sq_abs (sq_run sq_init hS)) (pw_abs (pw_run pw_init hP)).
+Proof. exact interchangeable_sqlite_peewee. Qed.
+Print Assumptions C02_backends_interchangeable_sqlite_peewee.
+
+(* all three at once *)
+Theorem C02_backends_interchangeable : forall hM hS hP,
+  ms_ok mem_init sq_init hM hS -> mp_ok mem_init pw_init hM hP -> sp_ok sq_init pw_init hS hP ->
+  sim (mem_run mem_init hM) (sq_abs (sq_run sq_init hS)) /\
+  sim (mem_run mem_init hM) (pw_abs (pw_run pw_init hP)) /\
+  sim (sq_abs (sq_run sq_init hS)) (pw_abs (pw_run pw_init hP)).
+Proof. exact interchangeable_all. Qed.
+Print Assumptions C02_backends_interchangeable.
+
+(* fed literally the same history (possible when it passes no ids, or ids that happen to
+   coincide), all three end in states of the one reference run *)
+Theorem C02_backends_reach_one_spec : forall h,
+  mem_hist_ok mem_init h -> sq_hist_ok sq_init h -> pw_hist_ok pw_init h ->
+  spec_run spec_init h (mem_run mem_init h) /\ spec_run spec_init h (sq_abs (sq_run sq_init h)) /\
+  spec_run spec_init h (pw_abs (pw_run pw_init h)).
+Proof. exact three_same_spec. Qed.
+Print Assumptions C02_backends_reach_one_spec.
 
 (* Non-vacuity.  (1) The tie pattern of the repaired defect: [0,10] then a zero-length event at
    10: the limit-1 read returns id 2 and replace_last rewrites id 2.  (2) A history with a tie
